@@ -17,7 +17,7 @@ RULES["C11"] = ("a world in which a planner decided a task together with at leas
                 lambda s: s["counters"].get("c11_pairs_in_output", 0) + s["counters"].get("probe_pairs", 0) > 0, 40)
 
 
-def check_output(now, placements, states, parents_of, applied_of, start_of, report, bump):
+def check_output(now, placements, states, parents_of, applied_of, start_of, report, bump, reachable_states_only=True):
     import workload as wl
     PT = wl.Placement.PlacementType
     dec = {id(p.task): p for p in placements if p.placement_type == PT.PLACE_TASK}
@@ -53,7 +53,11 @@ def check_output(now, placements, states, parents_of, applied_of, start_of, repo
                     ef = pl.placement_time.time + pl.execution_strategy.runtime.time
                     if ct < ef:
                         report("child_before_scheduled_parent_finish", f"t={now}: {child.unique_name} at {ct} < expected finish {ef} of scheduled {parent.unique_name}")
-            elif not child.terminal:
+            elif not child.terminal and reachable_states_only and states.get(id(child)) != "SCHEDULED":
+                # (the property speaks of predecessors decided in the same invocation, running or scheduled; a placed child
+                # with a predecessor that is none of these cannot arise from the frontier of a real run, so it is flagged
+                # there -- but not on chaos-made states, where a child may have been scheduled earlier without its parent,
+                # nor for a child whose earlier schedule the planner merely re-emits)
                 report("child_placed_parent_undecided", f"t={now}: {child.unique_name} placed at {ct} while parent {parent.unique_name} is {st} and received no decision")
 
 
@@ -79,7 +83,8 @@ def c11_hook(ctx, call, pol, sim_time, workload, pools):
         ctx.violate("C11", kind, f"{call['policy']}{' (shadow)' if call.get('shadow') else ''}: {detail}",
                     policy=call["policy"])
     ctx.count("c11_calls")
-    check_output(now, call["placements"], call["states"], parents_of, applied_of, start_of, report, ctx.count)
+    check_output(now, call["placements"], call["states"], parents_of, applied_of, start_of, report, ctx.count,
+                 reachable_states_only=not hasattr(ctx, "policy_decision"))  # direct-drive (chaos) contexts carry policy_decision
     if model is not None and ctx.counters.get("probes", 0) < ctx.opts.get("max_probes_per_world", 120):
         ctx.count("c11_models")
         try:
